@@ -31,4 +31,4 @@ def unit():
             ('out', P_REC, 'block.out_fut()@ == xor_seq(old(self).cipher_backend.enc_fn()(xor_seq(block.in_val()@, old(self).y@)), old(self).x@)'),
             ('state', P_REC + ('C09',), 'final(self).x@ == block.in_val()@ && final(self).y@ == block.out_fut()@'),
         ] + K.frame_iv_backend(iv_fields=XY), stmts={'0': 'let ghost x0 = block.in_val()@;', 'end': K.BACKEND_PROOF_1})})
-    return Unit('ige', prelude=K.PRELUDE_BLOCK, spec=['steps.rs'], mods=[lib, dec, enc])
+    return Unit('ige', prelude=K.PRELUDE_BLOCK, spec=['steps.rs'], mods=K.DEPS() + [lib, dec, enc])
